@@ -125,7 +125,10 @@ def gen_plan(prop, run_seed, tier):
                     batch=s.random() < 0.4, policy=policy, poison=f.choice(POISONS), poison_seed=f.randrange(2**31),
                     entropy=s.randrange(2**31), order_seed=s.randrange(2**31),
                     failstop=f.choice(["masked-row", "negative", "nan", "cli-negative", "cli-nan"]),
-                    second_round=s.random() < 0.3)
+                    second_round=s.random() < 0.3,
+                    # documented non-default model options (in-process rounds only; the CLI takes required arguments only)
+                    model_opts=dict(mult_gamma_proc=s.random() < 0.7, local_shrinkage=s.random() < 0.7,
+                                    **(dict(fake_intercept=s.random() < 0.6, individual_eff=s.random() < 0.7) if model == "sdc" else {})))
     kinds = ["f:pairwise", "f:permute", "f:segregate", "f:merge_min", "f:merge_top_bottom", "f:fixed_size", "f:optimal_size",
              "f:n_per_sample", "f:ensemble", "f:cover", "f:split", "f:random_holdout", "f:random_scorer", "f:dbal_subsample",
              "f:score_chunk", "f:policy", "f:select", "f:sample:sdc", "f:sample:sdci",
@@ -415,9 +418,9 @@ def _object_round(plan, rows, ids, stats, violation, log):
         es = ExperimentSpace.from_screen(scr)
         try:
             if model_kind == "sdc":
-                m = M1.SparseDrugCombo(experiment_space=es, n_embedding_dimensions=plan["D"])
+                m = M1.SparseDrugCombo(experiment_space=es, n_embedding_dimensions=plan["D"], **plan.get("model_opts", {}))
             else:
-                m = M2.SparseDrugComboInteraction(experiment_space=es, n_embedding_dimensions=plan["D"])
+                m = M2.SparseDrugComboInteraction(experiment_space=es, n_embedding_dimensions=plan["D"], **plan.get("model_opts", {}))
             m.add_observations(scr.subset_observed())
             y, cl, d1, d2 = m.wrapped_model.encode_obs()
             rec = dict(y=np.asarray(y, dtype=float).tolist(), cline=np.asarray(cl).tolist(), dd1=np.asarray(d1).tolist(),
@@ -529,8 +532,8 @@ def _failstop(plan, scratch, screen, rows, stats, violation, log):
 
     def fresh_model():
         if model == "sdc":
-            return M1.SparseDrugCombo(experiment_space=es, n_embedding_dimensions=plan["D"])
-        return M2.SparseDrugComboInteraction(experiment_space=es, n_embedding_dimensions=plan["D"])
+            return M1.SparseDrugCombo(experiment_space=es, n_embedding_dimensions=plan["D"], **plan.get("model_opts", {}))
+        return M2.SparseDrugComboInteraction(experiment_space=es, n_embedding_dimensions=plan["D"], **plan.get("model_opts", {}))
 
     stats.oracle_evals += 1
     if kind == "masked-row":
@@ -784,7 +787,12 @@ def _run_op(op, scratch, seed_override=None):
             from batchie.models.sparse_combo import SparseDrugCombo as Mdl
         else:
             from batchie.models.sparse_combo_interaction import SparseDrugComboInteraction as Mdl
-        m = Mdl(experiment_space=es, n_embedding_dimensions=2)
+        # documented, non-default model options are inputs like any other: every combination of the switches
+        opts = dict(mult_gamma_proc=w.random() < 0.7, local_shrinkage=w.random() < 0.7,
+                    a0=w.choice([1.1, 1.1, 2.0]), b0=w.choice([1.1, 1.1, 0.5]))
+        if model == "sdc":
+            opts.update(fake_intercept=w.random() < 0.6, individual_eff=w.random() < 0.7)
+        m = Mdl(experiment_space=es, n_embedding_dimensions=w.choice([2, 2, 1, 3]), **opts)
         m.add_observations(scr.subset_observed())
         h = ThetaHolder(n_thetas=2)
         sampling.sample(model=m, results=h, seed=seed % (2**32), n_chains=2, chain_index=w.randrange(2), n_burnin=1, thin=1)
